@@ -9,7 +9,7 @@ from ..model import AnalysisError, Func, Repo, short, walk_no_nested
 from ..report import RuleResult
 from .c01 import r1_5
 from .c10 import r10_1
-from .common import norm
+from .common import expand_locals, norm
 
 MG = "vectorizers/mixed_gram_vectorizer.py"
 
@@ -185,13 +185,40 @@ def r9_5(repo: Repo) -> RuleResult:
         rr.bad(f, "token / pair bookkeeping", "; ".join(problems), f.node.lineno)
     else:
         rr.ok(f, "token / pair bookkeeping", "%d paired appends to %s and %s" % (len(t_apps), tok, codes), f.node.lineno)
-    # the fitted max_char_code is the running maximum over the training characters
-    upd = [n for n in walk_no_nested(f.node) if isinstance(n, ast.Assign) and norm(n.targets[0]) == mcc]
-    guards = [n for n in walk_no_nested(f.node) if isinstance(n, ast.If) and any(u is x for u in upd for x in ast.walk(n))]
+    # the fitted max_char_code is the running maximum over the training characters: every update sits in the loop
+    # nest that visits each character of each training string, and raises mcc to that character's code
     from .common import rel_of
 
-    ok = bool(upd) and all(rel_of(g.test) == ("lt", mcc, norm(u.value)) and any(u is x for x in g.body)
-                           for g in guards for u in upd if any(u is x for x in ast.walk(g)))
+    upd = [n for n in walk_no_nested(f.node) if isinstance(n, ast.Assign) and norm(n.targets[0]) == mcc]
+    strings = f.params[0]
+
+    def char_loops():
+        out = []
+        for outer in [n for n in walk_no_nested(f.node) if isinstance(n, ast.For)]:
+            it = outer.iter.args[0] if isinstance(outer.iter, ast.Call) and norm(outer.iter.func) == "enumerate" and outer.iter.args else outer.iter
+            if norm(it) != strings:
+                continue
+            ovars = {x.id for x in ast.walk(outer.target) if isinstance(x, ast.Name)}
+            for inner in [n for n in ast.walk(outer) if isinstance(n, ast.For) and n is not outer]:
+                it2 = inner.iter.args[0] if isinstance(inner.iter, ast.Call) and norm(inner.iter.func) == "enumerate" and inner.iter.args else inner.iter
+                if isinstance(it2, ast.Name) and it2.id in ovars:
+                    out.append(inner)
+        return out
+
+    cl = char_loops()
+    ok = bool(upd) and bool(cl)
+    for u in upd:
+        inside = [lp for lp in cl if any(u is x for x in ast.walk(lp))]
+        if not inside:
+            ok = False
+            continue
+        cvars = {x.id for x in ast.walk(inside[0].target) if isinstance(x, ast.Name)}
+        val = expand_locals(u.value, f, 2)
+        from_char = any(isinstance(x, ast.Call) and norm(x.func) == "ord" and x.args and isinstance(x.args[0], ast.Name) and x.args[0].id in cvars for x in ast.walk(val))
+        is_max = isinstance(u.value, ast.Call) and norm(u.value.func) in ("max", "np.maximum") and mcc in {norm(a) for a in u.value.args}
+        guarded = any(isinstance(g, ast.If) and rel_of(g.test) == ("lt", mcc, norm(u.value)) and any(u is x for x in g.body) for g in ast.walk(inside[0]))
+        if not (from_char and (is_max or guarded)):
+            ok = False
     if ok and mcc in f.params:
         rr.ok(f, "max_char_code", "returned value is the parameter raised to the largest training character", upd[0].lineno)
     else:
